@@ -59,6 +59,12 @@ type scenario struct {
 	// is still in the session's queue, with the default score, ahead of the slow peers: it is popped for the remainder.
 	gone int
 	cut  int
+	// slow honest answers: every answer of every server is delayed by `delay` (virtual time, < RequestTimeout), and
+	// (dl) the client's streams honour the deadline sendMessage puts on them, as real transports do. With more chunks
+	// than peers a chunk waits for a free peer first; each sub-request has its full timeout from the moment its peer is
+	// popped, so every answer arrives in time and the call returns the exact range.
+	delay time.Duration
+	dl    bool
 }
 
 type backend struct {
@@ -166,7 +172,11 @@ func runRange(t *testing.T, w *emit.Writer, reg *vhdr.Registry, chain []H, sc sc
 	asked := map[int]bool{}
 	left := -1
 	synctest.Test(t, func(t *testing.T) {
-		wd := sess.NewWorld(t, len(sc.avail), sc.chunk, reqTO, "a", synctest.Wait)
+		mk := sess.NewWorld
+		if sc.dl {
+			mk = sess.NewWorldDL
+		}
+		wd := mk(t, len(sc.avail), sc.chunk, reqTO, "a", synctest.Wait)
 		var bs []*backend
 		for i := range sc.avail {
 			b := startBackend(t, wd, i, chain, sc.avail[i])
@@ -178,6 +188,9 @@ func runRange(t *testing.T, w *emit.Writer, reg *vhdr.Registry, chain []H, sc sc
 			}
 			wd.Proxy(i, wd.Backends[i], sess.ProxyHooks{
 				Before: func(att int) {
+					if sc.delay > 0 {
+						time.Sleep(sc.delay)
+					}
 					if sc.gone > 0 && att == 0 {
 						gmu.Lock()
 						asked[i] = true
@@ -288,6 +301,10 @@ func runRange(t *testing.T, w *emit.Writer, reg *vhdr.Registry, chain []H, sc sc
 	class := fmt.Sprintf("p%d/c%d/len%s/%s/%s", len(sc.avail), sc.chunk, rel, shape, o.Kind)
 	if sc.gone > 0 {
 		shape += "/left"
+	}
+	if sc.delay > 0 {
+		shape += fmt.Sprintf("/slow%d", sc.delay*10/reqTO)
+		w.Count("slow_honest_answers", fmt.Sprintf("peers=%d chunks=%d delay=%v result=%s", len(sc.avail), (sc.amount+sc.chunk-1)/sc.chunk, sc.delay, o.Kind))
 	}
 	grew := false
 	for _, gs := range sc.grows {
@@ -515,6 +532,21 @@ func TestC18(t *testing.T) {
 			}
 			scs = append(scs, sc)
 		}
+	}
+	// slow honest answers over a deadline-honouring transport: more chunks than peers, every answer takes
+	// 0.6 / 0.9 x RequestTimeout, so (wait for a free peer + answer time) exceeds RequestTimeout for the later chunks
+	for _, c := range []struct {
+		peers         int
+		chunk, amount uint64
+		tenths        int
+	}{{1, 2, 6, 6}, {1, 4, 16, 6}, {1, 7, 35, 6}, {1, 3, 10, 9}, {2, 2, 10, 6}, {2, 5, 15, 6}, {2, 4, 17, 9}, {2, 64, 200, 6}, {1, 1, 4, 6}} {
+		sc := scenario{name: fmt.Sprintf("slow-honest-p%d-c%d-l%d-d%d", c.peers, c.chunk, c.amount, c.tenths), chunk: c.chunk, from: 3,
+			amount: c.amount, delay: reqTO * time.Duration(c.tenths) / 10, dl: true}
+		for p := 0; p < c.peers; p++ {
+			sc.avail = append(sc.avail, 3+c.amount+uint64(p))
+			sc.faults = append(sc.faults, nil)
+		}
+		scs = append(scs, sc)
 	}
 	n := 150
 	maxChunk := 24
